@@ -40,6 +40,7 @@ def err_blocks(body):
 def run(ctx):
     n_keys(ctx)
     n_wire(ctx)
+    n_table(ctx)
     prog = ctx.prog()
 
     # ---------------------------------------------------------------- N-DUP
@@ -492,3 +493,38 @@ def n_wire(ctx):
 def prog_adt_name(b):
     st = b.types[b.self_ty]
     return st.get("d") if st.get("k") == "adt" else None
+
+
+def n_table(ctx):
+    """N-TABLE: the address table a machine's IPv4 is built from is complete when it is copied.  In machine_generator the
+    per-machine IpTable is filled by the application builders (&mut ip_table) and handed to Ipv4::new by value
+    (ip_table.clone()); a copy taken on a path that still leads to one of those fillings - without starting a new
+    machine's table in between - lacks the machine's own addresses, and its sender cannot open a session."""
+    prog = ctx.prog()
+    cands = [b for b in prog.bodies.values() if b.key.endswith("machine_generator::machine_generator")]
+    ctx.require(len(cands) == 1, "N-TABLE: machine_generator not found")
+    b = cands[0]
+    g = cfg(b)
+    tabs = [l for l in range(b.argc + 1, len(b.locals)) if b.local_tystr(l).startswith("elvis_core::ip_table::IpTable<") and b.local_name(l)]
+    ctx.require(len(tabs) == 1, "N-TABLE: expected one per-machine IpTable local in machine_generator, found %d" % len(tabs))
+    tab = tabs[0]
+    inits = [bb for bb, t in K.calls(b) if F.call_dest(t) == [tab, []]]
+    copies, fills = [], []
+    for bb, blk in enumerate(b.blocks):
+        if blk["c"]:
+            continue
+        for st in blk["s"]:
+            if st[0] == "a" and st[2][0] == "ref" and st[2][2][0] == tab and not [e for e in st[2][2][1] if e != "*"]:
+                if st[2][1] != "shared":
+                    fills.append(bb)           # &mut ip_table: handed to a builder that adds the machine's addresses
+                elif blk["t"][0] == "call" and (F.callee_key(blk["t"]) or "").rsplit("::", 1)[-1] == "clone":
+                    copies.append(bb)          # ip_table.clone(): the table some protocol is built from
+    ctx.require(len(inits) >= 1 and len(copies) >= 1 and len(fills) >= 3, "N-TABLE: table init/copy/fill sites not found (%d, %d, %d)" % (len(inits), len(copies), len(fills)))
+    probs = []
+    for c in copies:
+        late = [f for f in fills if g.reaches(c, f, removed=inits)]
+        if late:
+            probs.append("the table copied for Ipv4 at %s can still be filled afterwards (%s): that machine's IPv4 starts without the addresses its applications claim" % (
+                K.loc_of_block(b, c), K.loc_of_block(b, late[0])))
+    (ctx.bad if probs else ctx.ok)("N-TABLE", "N-TABLE:machine_generator", b.span, "; ".join(probs[:2]) if probs else
+        "%d copies of the per-machine table, each taken after all %d fillings of that machine" % (len(copies), len(fills)))
